@@ -66,7 +66,7 @@ def step (d : DSt) (n : Nat) (ln : Line) : DSt × List String :=
     let st := truncate d.m size
     let shrinks := size < d.file.length
     let kTok := o.getD 2 "K=-"
-    let h := { d.hist with truncDirty := d.hist.truncDirty ∨ (shrinks ∧ d.implDirty), truncChunks := d.hist.truncChunks ∨ (shrinks ∧ d.implChunks), savedAfterRead := d.hist.savedAfterRead ∨ (d.hist.readSeen ∧ kTok != d.implK) }
+    let h := { d.hist with truncDirty := d.hist.truncDirty ∨ (shrinks ∧ d.implDirty), truncChunks := d.hist.truncChunks ∨ (shrinks ∧ d.implChunks), savedAfterRead := d.hist.savedAfterRead ∨ (d.hist.readSeen ∧ (kTok != d.implK ∨ size != d.file.length)) }
     let cov := (if shrinks then ["COV t.shrink"] else ["COV t.grow-or-same"]) ++
       (if shrinks ∧ d.implDirty then ["COV t.shrink-with-dirty-pages"] else []) ++
       (if shrinks ∧ d.implChunks then ["COV t.shrink-with-chunks"] else [])
@@ -101,7 +101,7 @@ def step (d : DSt) (n : Nat) (ln : Line) : DSt × List String :=
     let off := tokNat (a.getD 0 ""); let len := tokNat (a.getD 1 "")
     let j := if o.getD 0 "" == "err" then some "Read/error" else readJudge d.hist d.file off len (tokNat (o.getD 0 "")) (tokBytes (o.getD 1 "-"))
     ({ d with hist := { d.hist with readSeen := true } }, judgeOut n j s!"R {off} {len}" ++ ["COV R"] ++
-      (if d.hist.savedAfterRead then ["COV R.after-chunks-added"] else []))
+      (if d.hist.savedAfterRead then ["COV R.after-entry-changed"] else []))
   | _ => (d, [s!"DIFF {n} unknown-op {ln.op}"])
 
 def main : IO Unit := run { init := ({} : DSt), step := step }
